@@ -96,6 +96,7 @@ func main() {
 //	(random SEED N) | (delay1) | (delay2 MAXPAIRS SEED) | (choices a b c ...)
 func exploreCase(id *sx.Node, s *session, st *sx.Node) *sx.Node {
 	trials, stuck, double, wrong := 0, 0, 0, 0
+	lockfree, lockfreeText := 0, ""
 	var first *sx.Node
 	maxSteps := 0
 	note := func(o *sx.Node, steps int) {
@@ -121,6 +122,12 @@ func exploreCase(id *sx.Node, s *session, st *sx.Node) *sx.Node {
 		if len(o.List) > 6 && o.List[6].Head() == "wrong" && o.List[6].List[1].Atom == "1" {
 			wrong++
 			bad = true
+		}
+		if len(o.List) > 7 && o.List[7].Head() == "lockfree" && o.List[7].List[1].Atom == "1" {
+			lockfree++
+			if lockfreeText == "" {
+				lockfreeText = o.List[7].List[2].Str
+			}
 		}
 		if bad && first == nil {
 			first = o
@@ -171,5 +178,6 @@ func exploreCase(id *sx.Node, s *session, st *sx.Node) *sx.Node {
 	if first != nil {
 		res.Append(sx.L(sx.A("first"), first))
 	}
+	res.Append(sx.L(sx.A("lockfree"), sx.I(int64(lockfree)), sx.S(lockfreeText)))
 	return res
 }
